@@ -7,6 +7,7 @@ R3 bond spelling: printing an order (1, 2, 3) and reading the printed prefix bac
 R4 arity: the suffix printed after Ring/Branch is the number of index symbols that follow, which are exactly the
    symbols of Q; the decoder's tables map suffix L to "read L symbols"
 R5 atoms are printed by the one atom printer that the decoder's writer uses
+R10 fragments keep the input order: the graph's roots container is an append-only list walked front to back
 Not decided: that no atom or bond is dropped, merged or reordered for every spelling (parser / DFS behaviour).
 """
 import ast
@@ -215,6 +216,20 @@ def run(ctx, rep):
                                     and pos < len(n.targets[0].elts) and isinstance(n.targets[0].elts[pos], ast.Name):
                                 local = n.targets[0].elts[pos].id
             loops = []
+            if owner is not frag and local is None:
+                # the helper returns the symbol followed by its index symbols as one list ([symbol] + index symbols) and the
+                # fragment printer emits every element of that list, in order
+                concat = any(isinstance(r, ast.Return) and isinstance(r.value, ast.BinOp) and isinstance(r.value.op, ast.Add)
+                             and isinstance(r.value.left, ast.List) and len(r.value.left.elts) == 1 and isinstance(r.value.right, ast.Name)
+                             and r.value.right.id == nm for r in own_nodes(owner.node)) and \
+                    all(isinstance(r.value, ast.BinOp) for r in own_nodes(owner.node) if isinstance(r, ast.Return) and r.value is not None)
+                if concat:
+                    for s_ in ctx.cg.sites(frag):
+                        if owner in s_.callees:
+                            for n in own_nodes(frag.node):
+                                if isinstance(n, ast.For) and n.iter is s_.node and isinstance(n.target, ast.Name) \
+                                        and any(isinstance(c, ast.Call) and emits_name(ctx, frag, c, n.target.id) for c in ast.walk(n)):
+                                    loops.append(n)
             if local is not None:
                 for n in own_nodes(scope.node):
                     if not (isinstance(n, ast.For) and isinstance(n.target, ast.Name)):
@@ -241,7 +256,8 @@ def run(ctx, rep):
     ok = a2s.qual in decr and a2s.qual in encr
     rep.ob("R5", ok, a2s.node, a2s, construct="atom_to_smiles shared", how="reachable from encoder (symbols) and decoder (output SMILES)",
            witness=None if ok else "encoder and decoder spell atoms with different printers", key="one-printer")
-    tok = ctx.fn("selfies.encoder._atom_to_selfies")
+    from rules.shared import atom_token_printer
+    tok = atom_token_printer(ctx)
     ok = any(a2s in s.callees for s in ctx.cg.sites(tok))
     rep.ob("R5", ok, tok.node, tok, construct="atom token printer calls atom_to_smiles", how="call graph", key="token-uses-printer",
            witness=None if ok else "atom tokens are not produced by atom_to_smiles")
@@ -257,6 +273,82 @@ def run(ctx, rep):
     # capacity being the property that subtracts explicit hydrogens (the comparator rule of C06/Q1)
     from rules.C06 import check_acceptance
     check_acceptance(ctx, rep, "R8")
+    check_fragment_order(ctx, rep, "R10")
+
+
+def check_fragment_order(ctx, rep, RULE):
+    """R10: fragments keep the order of the input.  The roots container of the graph (the field get_roots() hands out) is
+    a list that only ever grows at its end, is handed out in that order, and both translators walk it front to back."""
+    cls = ctx.db.classes["selfies.mol_graph.MolecularGraph"]
+    G = cls.methods.get("get_roots")
+    init = cls.methods.get("__init__")
+    if G is None or init is None:
+        raise AnalysisError("MolecularGraph.get_roots / __init__ not found")
+    selfn = G.posparams[0]
+    rets = [r.value for r in own_nodes(G.node) if isinstance(r, ast.Return) and r.value is not None]
+    field = None
+    order_keeping = {"list", "tuple", "iter", "copy.copy"}
+    ok_get = bool(rets)
+    for e in rets:
+        inner = e
+        while True:
+            if isinstance(inner, ast.Call) and unparse(inner.func) in order_keeping and len(inner.args) == 1 and not inner.keywords:
+                inner = inner.args[0]
+            elif isinstance(inner, ast.Call) and isinstance(inner.func, ast.Attribute) and inner.func.attr == "copy" and not inner.args:
+                inner = inner.func.value
+            elif isinstance(inner, ast.Subscript) and isinstance(inner.slice, ast.Slice) and inner.slice.lower is None \
+                    and inner.slice.upper is None and inner.slice.step is None:
+                inner = inner.value
+            else:
+                break
+        if isinstance(inner, ast.Attribute) and isinstance(inner.value, ast.Name) and inner.value.id == selfn:
+            field = inner.attr if field in (None, inner.attr) else field
+        else:
+            ok_get = False
+    if field is None:
+        raise AnalysisError("the field handed out by MolecularGraph.get_roots() was not identified")
+    rep.ob(RULE, ok_get, G.node, G, construct="get_roots() -> %s" % field, how="hands out the roots in stored order (the field, or an order-keeping copy)",
+           witness=None if ok_get else "get_roots() re-orders or filters the stored roots", key="roots/getter", nontrivial=True)
+    # bound to a list in __init__, and everywhere else only appended to
+    binds = [n for f in cls.methods.values() for n in own_nodes(f.node) if isinstance(n, (ast.Assign, ast.AnnAssign))
+             for t in (n.targets if isinstance(n, ast.Assign) else [n.target])
+             if isinstance(t, ast.Attribute) and t.attr == field and isinstance(t.value, ast.Name)]
+    probs = []
+    for b in binds:
+        v = b.value
+        is_list = (isinstance(v, ast.List)) or (isinstance(v, ast.Call) and unparse(v.func) == "list" and len(v.args) <= 1) \
+            or isinstance(v, ast.ListComp)
+        if not is_list:
+            probs.append("%s is bound to %s, not to a list: iteration order is not insertion order" % (field, unparse(v)[:40]))
+    if not binds:
+        probs.append("%s is never bound in the class" % field)
+    for f in ctx.db.funcs.values():
+        for n in own_nodes(f.node):
+            if isinstance(n, ast.Call) and isinstance(n.func, ast.Attribute) and isinstance(n.func.value, ast.Attribute) and n.func.value.attr == field \
+                    and n.func.attr not in ("append", "copy", "index", "count", "__len__", "__iter__"):
+                probs.append("%s.%s(...) in %s: the roots are not only appended in input order" % (field, n.func.attr, f.name))
+            if isinstance(n, (ast.Subscript,)) and isinstance(n.ctx, (ast.Store, ast.Del)) and isinstance(n.value, ast.Attribute) and n.value.attr == field:
+                probs.append("an element of %s is overwritten / deleted in %s" % (field, f.name))
+    rep.ob(RULE, not probs, binds[0] if binds else cls.node, init, construct="roots container %s" % field, how="a list, only appended to",
+           witness="; ".join(sorted(set(probs))[:3]) or None, key="roots/container", nontrivial=True)
+    # consumers walk it front to back
+    n_cons = 0
+    for f in ctx.db.funcs.values():
+        for n in own_nodes(f.node):
+            if isinstance(n, ast.Call) and isinstance(n.func, ast.Attribute) and n.func.attr == "get_roots":
+                n_cons += 1
+                par = None
+                for x in own_nodes(f.node):
+                    if any(c is n for c in ast.iter_child_nodes(x)):
+                        par = x
+                okc = isinstance(par, (ast.For, ast.comprehension)) and par.iter is n \
+                    or (isinstance(par, ast.Call) and unparse(par.func) in ("enumerate", "list", "tuple", "iter", "len") and par.args and par.args[0] is n) \
+                    or isinstance(par, ast.Assign)
+                rep.ob(RULE, okc, n, f, construct="consumer %s" % unparse(par)[:60] if par is not None else "consumer", how="iterates the roots in order",
+                       witness=None if okc else "the roots are re-ordered (%s) before the fragments are written: atoms of different fragments swap places"
+                       % (unparse(par)[:50] if par is not None else "?"), key="roots/consumer/%s" % f.name, nontrivial=True)
+    if n_cons < 2:
+        rep.floor_failures.append("expected the encoder and the SMILES writer to walk get_roots(); found %d consumer(s)" % n_cons)
 
 
 def check_bond_symbol_table(ctx, rep):
